@@ -13,15 +13,16 @@ import itertools
 import json
 
 from . import common, ws
-from .c05 import jv, sint
+from .c05 import jv, sint, fbits
 
 DESIGN_REF = "DESIGN.md §5 C13"
 ASSUMPTIONS = ["parameters are positional-or-keyword (the supported subset); literals are ast.Constant nodes "
                "(a negative number is an expression, not a literal)"]
 
 NAMES = ["a", "b", "c", "d"]
-VALUES = [0, 1, "", "a", None, False, True, 2, "__none__"]
-DEFAULTS = [0, "", False, None, 1, "a"]
+# ints, bools and floats that compare equal in Python (1 == 1.0 == True) are different bindings for dds (bool = int only)
+VALUES = [0, 1, "", "a", None, False, True, 2, "__none__", 1.0, 0.0, 2.0, 1.5]
+DEFAULTS = [0, "", False, None, 1, "a", 1.0, 0.0]
 
 
 def enc(v):
@@ -31,6 +32,8 @@ def enc(v):
         return jv("bool", v)
     if isinstance(v, int):
         return jv("int", sint(v))
+    if isinstance(v, float):
+        return jv("float", fbits(v))
     if isinstance(v, str):
         return jv("str", v)
     raise ValueError(v)
@@ -42,6 +45,8 @@ def doc_key(v):
         return ("i", int(v))
     if isinstance(v, int):
         return ("i", v)
+    if isinstance(v, float):
+        return ("f", fbits(v))
     if v is None:
         return ("none",)
     return ("s", v)
@@ -143,9 +148,11 @@ def run(ctx):
             i = rng.randrange(n)
             b0[i] = rng.choice([v for v in VALUES if doc_key(v) != doc_key(b0[i])])
             bindings.append(b0)
-            uniq = []
+            uniq, seen_b = [], set()
             for b in bindings:
-                if b not in uniq:
+                kb = repr(b)               # type-aware: [1], [1.0] and [True] are three bindings
+                if kb not in seen_b:
+                    seen_b.add(kb)
                     uniq.append(b)
             bindings = uniq
             src = "import dds\n\n" + render_fun("f", params) + "\n"
